@@ -32,6 +32,18 @@ CHECKS = {
     "C16": ("exploration", "runtime monitoring: API-level monitor of overlay_feature_variations against the source rule semantics at sampled points (edges +-2 quanta, centres, extremes) + end-to-end FeatureVariations evaluation",
             "Random rule lists are overlaid by the real code and the returned boxes evaluated (first containing box wins) at sampled normalized locations against 'all applicable rules in order, earlier wins'; asserted on points more than one F2Dot14 quantum from every box edge where applicable rules do not conflict. Conflicting points are evaluated and reported under known finding F8.",
             "Exact-edge points are counted, not asserted (the overlay drops zero-width intersections like fontTools).", "DESIGN.md §5 C16"),
+    "C03": ("exploration", "runtime monitoring: compiled variable fonts instantiated at every master by an independent gvar tuple-scalar + IUP evaluator, compared point by point with the generator's manifest",
+            "Generated variable sources are compiled by the real CLI; each glyph is instantiated at each of its master locations by my own evaluator and compared with the rounded master outline / component offsets under the property's own bound (0.5 + 0.5 x sum of active scalars; default exact, correspondence discovered by exact match of the default outline).",
+            "read-fonts decodes the tables, every evaluation rule (tents, IUP, phantom points) is re-implemented; cubic sources are compiled and checked by C12/C05 but not pointwise here; restructured composites (nested / non-export / flatten) are compared by C12.", "DESIGN.md §5 C03"),
+    "C04": ("exploration", "runtime monitoring: own ItemVariationStore / DeltaSetIndexMap evaluator on HVAR, VVAR, MVAR + gvar phantom points vs per-master source metrics from the manifest",
+            "For every glyph and master: hmtx+HVAR (vmtx+VVAR) within 1 of the rounded master advance and of the gvar phantom-point advance; for every fontinfo metric with a 1:1 table field: default value exact, MVAR-evaluated value at each master equal to the rounded master value (+-1 only with a fractional scalar), a metric without an MVAR record must not vary.",
+            "Only metrics set explicitly per master (no fallback chains) are asserted.", "DESIGN.md §5 C04"),
+    "C06": ("exploration", "runtime monitoring: expected glyph set / order / cmap / post names computed from the manifest by an independent model of the documented rules, compared with the emitted font",
+            "Sources with full / partial / absent declared order, .notdef in every position, skipExport glyphs used as nested components, multiple and supplementary codepoints, public.postscriptNames and mixed glyphs are compiled; the font's glyph list, cmap (both directions) and post names must be exactly the model's.",
+            "Names are asserted exactly under --no-production-names; with production names only 1:1-ness and explicit public.postscriptNames are asserted (glyph-data naming is not re-derived).", "DESIGN.md §5 C06"),
+    "C08": ("exploration", "runtime monitoring: own fvar default-normalization + avar evaluator vs an independent piecewise-linear model of the source axis maps, at nodes and off-node coordinates",
+            "Hostile axis definitions (2-9 nodes, default anywhere, non-integer nodes, slopes 0.05-20, flat segments, identity-with-bends) are compiled in tiny fonts; fvar bounds, required avar entries, monotonicity, instance ranges and avar(defaultNormalize(u)) == normalize(design(u)) within the F2Dot14 bound are checked at ~40 coordinates per axis.",
+            "A flat first/last segment (user min/max mapping onto the design default) is excluded on that side: finding F9.", "DESIGN.md §5 C08"),
 }
 
 NOT_YET = {}
